@@ -31,10 +31,10 @@ THEOREMS = [
     "encode_single_pass", "encode_wellformed", "attr_wellformed",
     "text_roundtrip_partial", "text_roundtrip_refuted", "text_roundtrip_exact",
     "attr_roundtrip_partial", "attr_roundtrip_refuted_entity", "attr_roundtrip_refuted_qname",
-    "escape_once",
+    "escape_once", "decode_encode_partial", "unescape_escape", "decode_encode_bounded",
     "reply_any_encoding", "reply_attr_any_encoding", "reply_text_exact", "trim_only_nonleaf",
     "text_roundtrip_bounded", "attr_roundtrip_bounded",
-    "tree_reparse_plain", "tree_reparse_pretty", "pretty_plain_same",
+    "tree_reparse_plain", "tree_reparse_pretty", "tree_roundtrip", "pretty_plain_same",
 ]
 
 PRE = "From SV Require Import Lib.Base Gen.C04Tables C04.Model."
@@ -754,7 +754,9 @@ def run(ck):
                 key = "C04:%s-%s-roundtrip" % (group, "attr" if m["attr"] else "text")
                 what = ("%s %r given %s is written as %r, which an XML parser reads as %r"
                         % ("attribute value" if m["attr"] else "element text", m["value"], m["where"], m["raw"], m["seen"]))
-                if m["attr"] and any(c in m["value"] for c in "\t\n\r") or "\r" in m["value"]:
+                normalised = (re.sub("\r\n|[\t\n\r]", " ", m["value"]) if m["attr"]
+                              else re.sub("\r\n?", "\n", m["value"]))
+                if m["seen"] == normalised:      # the defect repaired in f9fe39d is back
                     key = K_FIXED_WS
             ck.failing_input(key, what, dict(m, kind=group, codepoints=[ord(c) for c in m["value"]]))
         for i in res["req_agrees"]:
@@ -815,6 +817,42 @@ def run(ck):
     eval_req("ser", cases, meta)
 
     lap("ser")
+    # ------------------------------------------------------------------ esc (Text carrying the escaped flag)
+    cases, meta = [], []
+    epool = rng.sample(short, 250) + mid[:150] + longs[:100] + fixed
+    for n, s in enumerate(epool):
+        flag = n % 3 != 0
+        attr = n % 2 == 0
+        pretty = n % 4 < 2
+        # a Text flagged as escaped is written verbatim: only feed it content that is well-formed as it stands
+        v = enc.encode(s) if flag and n % 5 else s
+
+        def build():
+            e = Element("a")
+            if attr:
+                e.set("b", Text(v, escaped=flag))
+            else:
+                e.setText(Text(v, escaped=flag))
+            return (e.str() if pretty else e.plain())
+        r = guard(build)
+        raw = "\x00" + r[1]
+        if r[0] == "ok":
+            out = r[1]
+            if attr and out.startswith('<a b="') and out.endswith('"/>'):
+                raw = out[len('<a b="'):-len('"/>')]
+            elif not attr and v and out.startswith("<a>") and out.endswith("</a>"):
+                raw = out[3:-4]
+            elif not attr and not v:
+                raw = "" if out == "<a></a>" else "\x00" + out
+        cases.append("(%s, %s, %s, %s)" % (cstr(v), cbool(flag), cbool(attr), cstr(raw)))
+        meta.append({"value": v, "escaped": flag, "attr": attr, "raw": raw})
+        ck.seen(("esc", v, flag, attr), nontrivial=flag)
+        ck.count("esc")
+    res = run_grouped(ck, "esc", "esc_case", cases, ["esc_agrees"])
+    for i in res["esc_agrees"]:
+        disagree("serialisation of Text(escaped=%s)" % meta[i]["escaped"], meta[i])
+    lap("esc")
+
     # ------------------------------------------------------------------ refit (PrefixNormalizer on standalone trees)
     cases, meta = [], []
     uris = ["urn:a", "urn:b", "urn:c", XSI, XSD, SOAPENV]
